@@ -177,7 +177,7 @@ func enumShapeRaw(j int) *gen.Cfg {
 	// a fixed order of the family: first the members whose assignment contains both a shared and a
 	// contextual scope (where the legality rule can go wrong either way), then the rest; each part in a
 	// fixed permutation, so that any prefix samples all shapes
-	shape, as := j%9, j/9
+	shape, as := j%NShapes, j/NShapes
 	sc := []string{scopes[as%4], scopes[(as/4)%4], scopes[(as/16)%4]}
 	fx := `"` + gen.FxPath + `"`
 	node := func(name string, scope string, args ...gen.Arg) gen.Svc {
@@ -204,6 +204,18 @@ func enumShapeRaw(j int) *gen.Cfg {
 		b.Calls = []gen.Call{{Method: "WithA", Args: []gen.Arg{ref("c")}, Wither: true}}
 		c.Services = []gen.Svc{a, b, node("c", sc[2])}
 		c.Decorators = []gen.Dec{{Tag: "t", Fn: fx + ".Decorate", Args: []gen.Arg{ref("b")}}}
+	case 9: // a tag that only a decorator's argument consumes: a carries t, the decorator of t takes "!tagged u", b carries u and depends on c
+		a := node("a", sc[0])
+		a.Tags = []gen.Tag{{Name: "t"}}
+		b := node("b", sc[1], ref("c"))
+		b.Tags = []gen.Tag{{Name: "u"}}
+		c.Services = []gen.Svc{a, b, node("c", sc[2])}
+		c.Decorators = []gen.Dec{{Tag: "t", Fn: fx + ".Decorate", Args: []gen.Arg{{Kind: "tagged", S: "u"}}}}
+	case 10: // the same decorator function twice on one tag, with different arguments: first b, then c
+		a := node("a", sc[0])
+		a.Tags = []gen.Tag{{Name: "t"}}
+		c.Services = []gen.Svc{a, node("b", sc[1]), node("c", sc[2])}
+		c.Decorators = []gen.Dec{{Tag: "t", Fn: fx + ".Decorate", Args: []gen.Arg{ref("b")}}, {Tag: "t", Fn: fx + ".Decorate", Args: []gen.Arg{ref("c")}}}
 	case 8: // two calls: the first injects b, the second c
 		a := node("a", sc[0])
 		a.Calls = []gen.Call{{Method: "SetA", Args: []gen.Arg{ref("b")}}, {Method: "SetB", Args: []gen.Arg{ref("c")}}}
@@ -235,7 +247,10 @@ func enumShapeRaw(j int) *gen.Cfg {
 }
 
 // EnumFamily is the size of the exhaustive C05 family: 7 shapes x 4^3 scope assignments.
-const EnumFamily = 9 * 64
+const EnumFamily = NShapes * 64
+
+// NShapes is the number of shapes of the family.
+const NShapes = 11
 
 // enumCfg15 is the small configuration whose histories C15 enumerates exhaustively.
 func enumCfg15() *gen.Cfg {
@@ -375,7 +390,7 @@ func enumOrder(prop string) []int {
 	var first, rest []int
 	for k := 0; k < EnumFamily; k++ {
 		j := (k * 37) % EnumFamily
-		as := j / 9
+		as := j / NShapes
 		sh, cx := false, false
 		for d := 0; d < 3; d++ {
 			switch (as >> (2 * uint(d))) & 3 {
